@@ -56,7 +56,7 @@ enum {
   BAD_MOVED_READ = 3,  // value read (copy / move) out of a moved-from object
   BAD_SELF_MOVE = 4,   // move-assignment onto itself
   BAD_IDS = 5,         // identity pool exhausted (bound of the harness, reported separately)
-  BAD_SELF_COPY = 6    // copy-assignment onto itself
+  BAD_SELF_COPY = 6    // (not flagged: copy self-assignment is what std::vector::assign(n, v[i]) does as well)
 };
 #ifndef VF_NID
 #define VF_NID 16
@@ -110,7 +110,6 @@ struct R {
   R(R &&o) noexcept : val(o.val) { ++g_ops; o.checksrc(); id = new_id(); if (o.id < VF_NID) g_st[o.id] = 2; }
   R &operator=(const R &o) {
     ++g_ops; check(); o.checksrc();
-    if (this == &o) bad(BAD_SELF_COPY);
     fault_point();
     val = o.val; if (id < VF_NID) g_st[id] = 1;
     return *this;
@@ -149,7 +148,6 @@ struct X {
   X(X &&o) noexcept : self(fold(this)), val(o.val) { ++g_ops; o.checksrc(); id = new_id(); if (o.id < VF_NID) g_st[o.id] = 2; }
   X &operator=(const X &o) {
     ++g_ops; check(); o.checksrc();
-    if (this == &o) bad(BAD_SELF_COPY);
     fault_point();
     val = o.val; if (id < VF_NID) g_st[id] = 1;
     return *this;
